@@ -117,7 +117,7 @@ def build_assembly(A, CT, BT):
 
 
 def temp_grid(ng):
-    return [(26.0 * (j - 1) + 1.0) / 13.0 for j in range(1, ng + 1)]
+    return [0.0 if j == 1 else (26.0 * (j - 1) + 1.0) / 13.0 for j in range(1, ng + 1)]
 
 
 def temp_field(levels):
